@@ -123,6 +123,43 @@ def text_only_stripped(ctx):
     vals = sorted({unparse(n.ast.value) for n in defs})
     ok = set(vals) <= {f"{node_p}.text.strip()", f"{node_p}.text", "''"} and any('text' in v for v in vals)
     res.check(ok, 'R-TEXT', conv.fq, "text = node.text.strip() (or '' when absent)", fail_detail=str(vals), key='R-TEXT|strip-only')
+    # the stripped text is taken exactly when there is text, the empty default exactly when there is none
+    for n in defs:
+        v = unparse(n.ast.value)
+        guards = {(unparse(t.ast), lab) for t, lab in dom.guards_of(g, n) if t.kind == 'test'}
+        present = {(f"{node_p}.text", 'T'), (f"{node_p}.text is not None", 'T'), (f"{node_p}.text is None", 'F')}
+        absent = {(f"{node_p}.text", 'F'), (f"{node_p}.text is not None", 'F'), (f"{node_p}.text is None", 'T')}
+        if 'text' in v:
+            res.check(bool(guards & present) or v == f"{node_p}.text", 'R-TEXT', conv.fq, f"`{short(n.ast)}` is taken when the node has text", fail_detail=f"guards: {sorted(guards)}",
+                      key='R-TEXT|text-when-present', line=n.line)
+            res.check(not (guards & absent), 'R-TEXT', conv.fq, f"`{short(n.ast)}` is not confined to nodes without text", fail_detail=f"guards: {sorted(guards)}",
+                      key='R-TEXT|text-not-when-absent', line=n.line)
+        else:
+            res.check(bool(guards & absent), 'R-TEXT', conv.fq, f"the empty default `{short(n.ast)}` is taken only when the node has no text", fail_detail=f"guards: {sorted(guards)}",
+                      key='R-TEXT|default-when-absent', line=n.line)
+    # the variable is bound on every path before its first use
+    names = {n.ast.targets[0].id for n in defs}
+    for name in names:
+        dnodes = [n for n in defs if n.ast.targets[0].id == name]
+        uses = [n for n in g.stmt_nodes() if n not in dnodes and any(isinstance(x, ast.Name) and x.id == name and isinstance(x.ctx, ast.Load) for e in n.exprs() for x in walk_local(e))]
+        unbound = [u for u in uses if g.path_avoiding(g.entry, u, avoid=dnodes) is not None]
+        res.check(bool(uses) and not unbound, 'R-TEXT', conv.fq, f"`{name}` is bound on every path before it is used (a node without text included)",
+                  fail_detail='; '.join(u.text() for u in unbound[:2]) or 'never used', key='R-TEXT|bound')
+    # what the converter returns is the element it constructed from the node
+    rets = [n for n in g.stmt_nodes() if n.kind == 'return']
+    ok = bool(rets)
+    detail = ''
+    for r in rets:
+        v = r.ast.value
+        if not isinstance(v, ast.Name):
+            ok, detail = False, short(r.ast)
+            continue
+        ds = dom.reaching_defs(g, v.id, r)
+        if not ds or not all(isinstance(d.ast, ast.Assign) and isinstance(d.ast.value, ast.Call) and isinstance(d.ast.value.func, ast.Call) and
+                             unparse(d.ast.value.func.func) == 'eval' for d in ds):
+            ok, detail = False, f"{short(r.ast)}: defined by {[short(d.ast, 50) for d in ds]}"
+    res.check(ok and g.path_avoiding(g.entry, g.exit, avoid=rets) is None, 'R-CONSUME', conv.fq,
+              "every normal path returns the element constructed from the node's tag", fail_detail=detail or 'a path ends without a return', key='R-CONSUME|converter-return')
 
 
 def reserved_names(ctx):
